@@ -35,8 +35,8 @@ PKG = "yv-c17"
 
 # name -> (cfg, workers, role)
 GEN_CONFIGS = {
-    "quick": ["MC_Alias_q3.cfg", "MC_Alias_g3.cfg"],
-    "thorough": ["MC_Alias_q3.cfg", "MC_Alias_g3.cfg", "MC_Alias_g3b.cfg", "MC_Alias_n4.cfg", "MC_Alias_t3.cfg"],
+    "quick": ["MC_Alias_q3.cfg", "MC_Alias_g3.cfg", "MC_Alias_nl3.cfg"],
+    "thorough": ["MC_Alias_q3.cfg", "MC_Alias_g3.cfg", "MC_Alias_nl3.cfg", "MC_Alias_nl3t.cfg", "MC_Alias_g3b.cfg", "MC_Alias_n4.cfg", "MC_Alias_t3.cfg"],
 }
 SPELLINGS = (0, 1, 2)
 RANDOM_N = {"quick": 8000, "thorough": 80000}
